@@ -471,7 +471,21 @@ func authGen(r *Rng, i int) *Sx {
 		cwd = 1
 	}
 	fields := []*Sx{K("alg", A(alg)), K("pf", S(Pick(r, []string{"pw.yml", "gmqtt_password.yml"}))), K("pfform", A(form)), K("cwd", I(cwd))}
-	if r.Chance(1, 2) {
+	if alg != "bcrypt" && r.Chance(1, 12) {
+		// a password file with more accounts than any page of the account API lists (20): every rewrite of the file
+		// must keep all of them
+		rows := []*Sx{}
+		for k := 0; k < r.Range(21, 26); k++ {
+			u := fmt.Sprintf("n%02d", k)
+			g.users = append(g.users, u)
+			p := Pick(r, []string{"p", "pw1", "P"})
+			h, _ := authStored(alg, p)
+			g.tab[u] = p
+			g.order = append(g.order, u)
+			rows = append(rows, L(S(u), S(h)))
+		}
+		fields = append(fields, K("init", rows...))
+	} else if r.Chance(1, 2) {
 		rows := []*Sx{}
 		malformed := r.Chance(1, 14)
 		seen := map[string]bool{}
